@@ -53,8 +53,29 @@ def alphabet(tier):
     return muts, qs
 
 
+def walk_alphabet(tier):
+    """additional calls: listings, traversals with option combinations, copy / chmod / chown"""
+    muts, qs = [], []
+    for k in ["paths", "dirs", "files", "all_paths", "all_dirs", "all_files"]:
+        for p in ["/", "/a", "/b"]:
+            qs.append(op(k, p))
+    for o in ["sort", "sort,follow=1", "sort,cf", "sort,df,min=1", "sort,ff,max=1", "sort,dirs", "sort,files,cf", "sort,follow=1,cf,dirs", "sort,maxdesc=0,follow=1"]:
+        for p in ["/", "/a"]:
+            qs.append("entries:%s:%s" % (hx(p), o))
+    muts += [op("copy", "/a", "/b"), op("copy", "/b", "/a"), op("copy", "/a", "/a/b"), op("copy", "/a/b", "/c/d"), op("copy", "/a", "/"),
+             "copy_b:%s:%s:follow=1" % (hx("/a"), hx("/b")), "copy_b:%s:%s:all=448" % (hx("/a"), hx("/c")),
+             "copy_b:%s:%s:cdirs=448,follow=1" % (hx("/b"), hx("/c")), "copy_b:%s:%s:cfiles=256" % (hx("/a"), hx("/b/a"))]
+    muts += [op("chmod", "/a", 0o700), op("chmod", "/", 0o555), op("chmod", "/b", 0),
+             "chmod_b:%s:follow=1,all=384:" % hx("/b"), "chmod_b:%s:norecurse,dirs=448:" % hx("/a"),
+             "chmod_b:%s::%s" % (hx("/"), hx("f:a+x,d:go-rwx")), "chmod_b:%s::%s" % (hx("/a"), hx("a:a=")), "chmod_b:%s:follow=1:%s" % (hx("/"), hx("a:u=rw"))]
+    muts += [op("chown", "/a", 5, 7), "chown_b:%s:uid=9,follow=1" % hx("/b"), "chown_b:%s:gid=3,norecurse" % hx("/"), op("mkfile_m", "/a/a", 0o600), op("mkfile_m", "/b", 0o755)]
+    return muts, qs
+
+
 def bfs_histories(ctx, tier, depth, maxstates):
     muts, qs = alphabet(tier)
+    m2, q2 = walk_alphabet(tier)
+    muts, qs = muts + m2, qs + q2
     work = ctx["work"]
     af = os.path.join(work, "alphabet.txt")
     with open(af, "w") as f:
@@ -112,7 +133,18 @@ def random_histories(rng, n, length, tier):
 
 
 def hist_canon(out):
-    return out
+    """traversal results: a followed link sorts under its target's name, which may tie with a sibling;
+    ties are broken by HashSet order, so an item list with duplicate names is compared as a multiset"""
+    if "\tI" not in out and not out.startswith("I"):
+        return out
+    fs = out.split("\t")
+    for i, f in enumerate(fs):
+        if f.startswith("I") and not f.startswith("Io"):
+            items = f[1:].split(",")
+            names = [x.rsplit("2f", 1)[-1] for x in items]
+            if len(set(names)) != len(names):
+                fs[i] = "I*" + ",".join(sorted(items))
+    return "\t".join(fs)
 
 
 def mem_streams(tier, rng, ctx, focus=None):
@@ -122,11 +154,11 @@ def mem_streams(tier, rng, ctx, focus=None):
     rh = random_histories(rng, 3000 if tier == "quick" else 30000, 12, tier)
     env = dict(MEM_ENV)
     sts = [
-        Stream("mem-bfs", "mirror", hs, impl_env=env, exhaustive=True, judge=None,
+        Stream("mem-bfs", "mirror", hs, impl_env=env, exhaustive=True, judge=None, canon=hist_canon,
                nontrivial=lambda l, o: "\tE:" not in o,
                rule="model-guided BFS (%s, depth %d): every reachable state of the bounded namespace x every call of the alphabet; "
                     "per-call results and the complete final state (all three indexes, cwd, root) compared" % (info, depth)),
-        Stream("mem-random", "mirror", rh, impl_env=env,
+        Stream("mem-random", "mirror", rh, impl_env=env, canon=hist_canon,
                nontrivial=lambda l, o: "\tE:" not in o,
                rule="random histories (<= 12 calls) over 5 names incl. multi-byte, unclean / relative / special spellings"),
     ]
